@@ -113,6 +113,18 @@ Theorem c12_concurrent_producer_order :
 Proof. exact @concurrent_producer_order. Qed.
 Print Assumptions c12_concurrent_producer_order.
 
+(* ... also as seen by each consumer: what consumer c received from producer p is a
+   subsequence of p's Enqueue calls, in p's program order *)
+Theorem c12_concurrent_consumer_view :
+  forall (A : Type) (nilv : A) (maxFirst maxInternal : Z) (owner : A -> Z)
+         (sched : list (Z * uop A)) (p c : Z),
+    no_init sched ->
+    (forall t a, In (t, UPush a) sched -> owner a = t) ->
+    let '(q, outs) := crun nilv maxFirst maxInternal uq_init sched in
+    subseq (filter (fun a => owner a =? p) (received c sched outs)) (pushed (calls_of p sched)).
+Proof. exact @concurrent_consumer_view. Qed.
+Print Assumptions c12_concurrent_consumer_view.
+
 (* non-vacuity: a sized deque meets the hypotheses; a history that grows, wraps, rotates,
    shrinks and reads out of range computes, and agrees with the list *)
 Example c12_example_init :
